@@ -571,7 +571,7 @@ def incidence(tier, seed):
 
 # ------------------------------------------------------------------------------------------------ consumers leave the tables intact
 _TABLES = ("node_face_connectivity", "edge_face_connectivity", "face_face_connectivity", "hole_edge_indices",
-           "edge_node_connectivity", "face_edge_connectivity", "face_node_connectivity")
+           "edge_node_connectivity", "face_edge_connectivity", "face_node_connectivity", "n_nodes_per_face")
 
 
 def consumers(tier, seed):
@@ -600,6 +600,8 @@ def consumers(tier, seed):
         yield "UxDataArray.difference('edge') of node data", lambda: nda.difference(destination="edge")
         yield "topological_mean('face')", lambda: nda.topological_mean(destination="face")
         yield "topological_max('edge')", lambda: nda.topological_max(destination="edge")
+        yield "topological_sum('face') on (time, n_node)", lambda: ux.UxDataArray(
+            np.arange(2 * nn, dtype=float).reshape(2, nn), dims=["time", "n_node"], uxgrid=g, name="n2").topological_sum(destination="face")
         yield "integrate()", lambda: fda.integrate()
         yield "Grid.isel(n_face=...)", lambda: g.isel(n_face=list(range(0, nf, 2)))
         yield "Grid.isel(n_node=...)", lambda: g.isel(n_node=[0, nn - 1])
@@ -645,7 +647,7 @@ def consumers(tier, seed):
                 else:
                     # tables first built after the operation: against the oracle
                     check_grid(rec, "after_" + sc, "edges_then_edge_face", mesh, orc, grid=g)
-    bound = (f"{len(pick)} manifold catalogue meshes (open patches with boundary edges first, closed ones for the dual) x 11 read-only "
+    bound = (f"{len(pick)} manifold catalogue meshes (open patches with boundary edges first, closed ones for the dual) x 12 read-only "
              f"operations x grid prepared with all tables built (compared with copies taken before) or nothing built (tables first "
              f"built afterwards, checked against the oracle)")
     return result(rec.cases, len(distinct), rec.failures, bound, [{"mesh": m["name"]} for m in pick[:3]])
